@@ -3,8 +3,8 @@
 worktree of /repo, run the checks named in meta.json's detected_by against it (VERIF_REPO), and report
 whether each still raises a VIOLATION.   usage: tools/reseed.py [id-substring ...]"""
 import glob, json, os, re, subprocess, sys
-V = "/verif"
-WT = "/tmp/reseed_wt"
+V = os.environ.get("VERIF_HOME", "/verif")     # a worktree of /verif may run the regression on its own
+WT = "/tmp/reseed_wt" + ("" if V == "/verif" else "_" + os.path.basename(V))
 INPLACE = "--inplace" in sys.argv[1:]      # apply to /repo itself (git -C /repo apply; check; checkout -- .)
 sel = [a for a in sys.argv[1:] if a != "--inplace"]
 sh = lambda c, **k: subprocess.run(c, shell=True, stdout=subprocess.PIPE, stderr=subprocess.STDOUT, text=True, **k)
